@@ -59,6 +59,14 @@ def repeat_body_stmt(draw, nm, depth):
         return [{"k": "insn", "mn": "mov", "ops": [(draw(st.sampled_from(["rel", "reld", "abs", "imm"])), lab), ("reg", 0)]}]
     if k == 7:
         return [{"k": "data", "d": "word", "es": [dot, ("bin", "-", dot, sym())]}]
+    if k == 8 and depth == 1 and draw(st.booleans()):
+        # copies whose size depends on the parity of the address they land on
+        return draw(st.sampled_from([
+            [{"k": "data", "d": "byte", "es": [("num", 1)]}, {"k": "even"}, {"k": "data", "d": "byte", "es": [("num", 2)]}],
+            [{"k": "even"}, {"k": "data", "d": "byte", "es": [("bin", "&", ("dot",), ("num", 0o377))]}],
+            [{"k": "data", "d": "byte", "es": [("num", 3)]}, {"k": "odd"}],
+            [{"k": "data", "d": "byte", "es": [("num", 5)]}],
+        ]))
     if k == 8:
         if depth > 1:
             return [{"k": "data", "d": "byte", "es": [("num", draw(st.integers(0, 255))), ("num", 7)]}]
@@ -83,11 +91,12 @@ def repeat_case(draw):
         body += draw(repeat_body_stmt(nm, 1))
     n = draw(st.one_of(st.integers(0, 5), st.integers(0, 5), st.integers(0, 40)))
     if has_padding(body):
-        n = min(n, 3)   # the running time of pdpy11 doubles with every executed .even
+        n = min(n, 4)   # the running time of pdpy11 doubles with every executed .even
     late = draw(st.booleans())
     count = ("sym", "rn0") if late else ("num", n)
     stmts = [{"k": "label", "name": labels[0]}, {"k": "insn", "mn": "nop", "ops": []}]
     stmts.append({"k": "repeat", "e": count, "body": body})
+    stmts.append({"k": "even"})
     stmts += [{"k": "label", "name": labels[1]}, {"k": "insn", "mn": "nop", "ops": []}]
     defs = [{"k": "assign", "name": c, "e": ("num", draw(st.sampled_from([4, 0o10, 6, 0o100, 2])))} for c in consts]
     if late:
